@@ -212,3 +212,46 @@ def is_payload(t, param, kind):
             all(x == ("field", ("param", param), "Number.0") for x in t[2][0]):
         return True
     return False
+
+
+def results_by_kind(body, lib, kinds_of, max_steps=4000):
+    """Every value the body can return when the values named by the terms in `kinds_of` ({term: kind}) have those kinds —
+    however the kinds are inspected (match on the value, accessor case analysis, is_x()) and wherever the result is wrapped
+    (per arm, or once after the case analysis): the provenance of the result is taken along each feasible path."""
+    def atom(t):
+        if t[0] == "discr":
+            x = t[1]
+            if x in kinds_of:
+                return kinds_of[x]
+            if x[0] == "view" and x[2] in kinds_of and x[1] in VIEW_KIND:
+                return "Some" if VIEW_KIND[x[1]] == kinds_of[x[2]] else "None"
+        return None
+
+    def call(t, argvals):
+        name = t[1]
+        if name in ("std::option::Option::<T>::is_some", "std::option::Option::<T>::is_none") and len(t[2]) == 1:
+            for a in t[2][0]:
+                if a[0] == "view" and a[2] in kinds_of and a[1] in VIEW_KIND:
+                    v = int(VIEW_KIND[a[1]] == kinds_of[a[2]])
+                    return v if name.endswith("is_some") else 1 - v
+            return None
+        if name.startswith(V) and name[len(V):] in IS and len(t[2]) == 1:
+            ps = {kinds_of.get(y) for y in t[2][0]}
+            if len(ps) == 1 and None not in ps:
+                return int(IS[name[len(V):]] == next(iter(ps)))
+        return None
+
+    w = Walker(body, Origins(body, lib), atom=atom, call=call, max_steps=max_steps)
+    out = set()
+    for path, leaf in w.walk():
+        out |= set(w.result_on_path(path))
+    return out
+
+
+def ok_payloads(terms):
+    """Payload terms of the Ok(..) results among `terms` (failures — Err aggregates, passed-on errors — are skipped)."""
+    out = set()
+    for t in terms:
+        if t[0] == "agg" and t[1] == "std::result::Result::Ok" and len(t[2]) == 1:
+            out |= set(t[2][0])
+    return out
